@@ -16,13 +16,13 @@ FAMILIES_OF = {
     "C02": ["plain", "full", "wide", "hints", "hard", "deep", "lazycon"],
     "C03": ["plain", "full", "wide", "hints", "hard", "deep", "lazycon"],
     "C04": ["plain", "full", "wide", "hints", "soft", "softx", "reuse", "deep", "lazycon"],
-    "C05": ["plain", "full", "hints", "soft", "softx", "hard", "deep", "lazycon"],
+    "C05": ["plain", "full", "hints", "soft", "softx", "softloop", "hard", "deep", "lazycon"],
     "C07": ["plain", "full", "wide", "hard", "deep", "lazycon"],
     "C08": ["plain", "full", "wide", "hard", "deep", "lazycon"],
     "C10": ["async", "asynchard"],
     "C13": ["reuse"],
-    "C14": ["soft", "softx"],
-    "C15": ["wide", "full", "deep", "lazycon"],
+    "C14": ["soft", "softx", "softloop"],
+    "C15": ["wide", "full", "deep", "lazycon", "softloop"],
     "C16": ["snapshot"],
 }
 SIZES = {"quick": 400, "thorough": 5000}
